@@ -56,6 +56,7 @@ type Clause struct {
 	Cond      string // ghostset: condition
 	VarType   string // atcall sets: type of the ghost variable
 	Assumed   bool   // "assume": a postcondition of a /repo function that is used at call sites but not verified
+	Establishes bool // "atcall K establishes": the fact is assumed after its obligation
 	SinceLock string // "ensures sincelock E" / "ensures sincefirstlock E": old() in E is the state right after the function last / first acquired a guarding mutex ("last", "first")
 	// Free: skip assumption of this ensures at call sites unless tag selected (unused)
 }
@@ -526,6 +527,13 @@ func parseSpecFile(path string, ps *PkgSpec, trustedFile bool) error {
 					cur.Clauses = append(cur.Clauses, &Clause{Kind: KAtCallSet, Callee: callee, Label: f[0], VarType: strings.Join(f[1:], " "), Locals: []string{params}, Text: val, Cond: cond, File: path, Line: ln})
 					break
 				}
+				// atcall KEY establishes (params) :: EXPR   like requires, and the proved fact is kept for what follows
+				// (a lemma at a program point: later obligations may use it; if it fails it is the violation)
+				establishes := false
+				if ei := strings.Index(rest, " establishes "); ei >= 0 && strings.Index(rest, " requires ") < 0 && strings.Index(rest, " overrides ") < 0 {
+					rest = rest[:ei] + " requires " + rest[ei+13:]
+					establishes = true
+				}
 				idx := strings.Index(rest, " requires ")
 				overrides := ""
 				skip := 10
@@ -543,7 +551,7 @@ func parseSpecFile(path string, ps *PkgSpec, trustedFile bool) error {
 				if overrides != "" && label == "" {
 					label = overrides + ".override"
 				}
-				cur.Clauses = append(cur.Clauses, &Clause{Kind: KAssertCall, Callee: strings.TrimSpace(rest[:idx]), Text: text, Label: label, Tags: tags, File: path, Line: ln, Overrides: overrides})
+				cur.Clauses = append(cur.Clauses, &Clause{Kind: KAssertCall, Callee: strings.TrimSpace(rest[:idx]), Text: text, Label: label, Tags: tags, File: path, Line: ln, Overrides: overrides, Establishes: establishes})
 			default:
 				text, label, tags := splitLabelTags(" " + rest)
 				kind := map[string]ClauseKind{"requires": KRequires, "ensures": KEnsures, "assume": KEnsures, "cover": KCover, "returns": KReturns}[kw]
